@@ -15,10 +15,13 @@ cp "$OUT/$DEMO" "$WT/$PKG/$DEMO"
 ( cd "$WT/$PKG" && go test -count=1 -run "$RUN" . ) > /tmp/me/sv-mut.log 2>&1; B=$?
 rm -f "$WT/$PKG/$DEMO"
 ( cd "$WT/$MOD" && go test -count=1 ./... ) > /tmp/me/sv-suite.log 2>&1; C=$?
+# chain.TestBitcoindEvents needs a bitcoind binary; it fails on the unchanged
+# tree in this sandbox and is not part of the pinned suite (BASELINE.json)
+if [ $C -ne 0 ] && ! grep -E "^--- FAIL|^panic|\[build failed\]|\[setup failed\]" /tmp/me/sv-suite.log | grep -qv "TestBitcoindEvents"; then C=0; fi
 echo "demo unchanged exit=$A (want 0); demo with change exit=$B (want !=0); existing tests of $MOD with change exit=$C (want 0)"
 # run my check against the scratch worktree that carries the change (never
 # against /repo itself: other checks may be running from it)
-( cd ${VERIF_DIR:-/verif} && VERIF_REPO="$WT" VERIF_BUDGET_S=${BUDGET:-40} ./check "$ID" quick ) > /tmp/me/sv-check-$NAME.log 2>&1; D=$?
+( cd ${VERIF_DIR:-/verif} && VERIF_EVIDENCE_DIR=/tmp/me/sv-evidence VERIF_REPO="$WT" VERIF_BUDGET_S=${BUDGET:-40} ./check "$ID" quick ) > /tmp/me/sv-check-$NAME.log 2>&1; D=$?
 cp /tmp/me/sv-check-$NAME.log /tmp/me/sv-check.log
 git -C /repo worktree remove --force "$WT"
 rm -rf /verif/build/work-$(echo "$WT" | md5sum | cut -c1-8)
